@@ -457,3 +457,48 @@ def gen_repeat(seed, wl, cfg=None):
         steps.append({'perturb': [], 'call': call, 'optsig': optsig, 'family': fam})
     return {'seed': seed, 'mode': mode, 'inputs': used, 'params': used_params,
             'steps': steps, 'arm': 'repeat', 'faults_on': False}
+
+
+def gen_param_walk(seed, wl, cfg=None):
+    """Parameter-file history: one or two inputs of a family with coupled
+    systems / ligands / ions are run under a shuffled walk through the
+    parameter files, each followed (usually) by a run under the default file
+    or another one.  Targets anything a parameter file leaves behind."""
+    cfg = cfg or {}
+    rng = random.Random(seed)
+    inputs = wl['inputs']
+    params = {p['id']: p['text'] for p in wl['params']}
+    pool = [i for i in inputs if i['natoms'] <= 200 or i['family'] in NONCOV_FAMILIES]
+    fams = {}
+    for i in pool:
+        fams.setdefault(i['family'], []).append(i)
+    hot = [f for f in HOT_FAMILIES if f in fams]
+    fam = rng.choice(hot) if hot and rng.random() < 0.8 else rng.choice(sorted(fams))
+    subjects = rng.sample(fams[fam], min(len(fams[fam]), rng.randint(1, 2)))
+    pids = [p for p in params if params[p] is not None]
+    rng.shuffle(pids)
+    extra = [[], [['-d']], [['-k']], [['--protonate-all']]]
+    mode = {'addr': 'sim', 'layout': gen_layout(rng), 'rollover': False,
+            'clock_start': 730000 + rng.randrange(15000),
+            'filelayer': True, 'clock': True, 'probe': True}
+    steps = []
+    used = {}
+    used_params = {}
+
+    def add(inp, pid, more):
+        opts = list(more) + ([['-p', '@PARAM']] if pid else [])
+        call = gen_call(rng, {'single_path', 'single_stream', 'pipeline', 'cli'}, inp, opts, pid,
+                        [inp], False)
+        call['inputs'] = [inp['id']]
+        used[inp['id']] = {'text': inp['text'], 'stem': inp['stem']}
+        if pid:
+            used_params[pid] = params[pid]
+        steps.append({'perturb': [], 'call': call, 'family': fam,
+                      'optsig': 'param:%s%s' % (pid or 'default', '+' + more[0][0] if more else '')})
+    for pid in pids[:rng.randint(5, 8)]:
+        add(rng.choice(subjects), pid, rng.choice(extra))
+        if rng.random() < 0.7:
+            add(rng.choice(subjects), None if rng.random() < 0.7 else rng.choice(pids),
+                rng.choice(extra))
+    return {'seed': seed, 'mode': mode, 'inputs': used, 'params': used_params,
+            'steps': steps, 'arm': 'params', 'faults_on': False}
